@@ -31,7 +31,7 @@ class C12(Check):
         "(successes, every failure class incl. an internal error raised outside the method body by a class based view's constructor, notifications, failing notifications, batches, rejected documents, non-JSON) x scripted method "
         "failures x sync / async dispatcher. Oracle: the reference server extended with the stack semantics predicts the response "
         "document, the executions and the exact event log (middleware enter events with method / id / params / context identity, handler "
-        "events with key, received code, request) - compared as sequences. non-trivial = >= 2 middlewares, or >= 2 handlers ran, or a "
+        "events with key, received code, request) - compared as sequences; the same document dispatched a second time through the same dispatcher gives the same response and events. non-trivial = >= 2 middlewares, or >= 2 handlers ran, or a "
         "short-circuit / rewrite / replace kind took effect; distinct = distinct spec."
     )
     assumptions = [
@@ -139,6 +139,20 @@ class C12(Check):
             which = 'middleware-events' if not (len(gm) == len(em) and all(jg.jeq(a, b) for a, b in zip(gm, em))) else 'handler-events'
             discs.append(Disc(f"C12/{which}", f"events {jg.short(got_events, 500)} expected {jg.short(exp_events, 500)} | {where}"))
 
+        # the same document once more through the SAME dispatcher: the stack is configuration, serving a request does not use it up
+        if not discs:
+            first_events, first_ret = list(ev.log), ret
+            del ev.log[:]
+            hm.RT.reset(sentinel, behaviours, error_builder=sh.build_error)
+            try:
+                ret2 = hm.run_dispatch(kind, d, obs.request_text, sentinel)
+            except Exception as e:
+                ret2 = ('raised', repr(e))
+            same_ret = (ret2 is None and first_ret is None) or (ret2 is not None and first_ret is not None and json.loads(ret2[0]) == json.loads(first_ret[0])
+                                                                and tuple(ret2[1]) == tuple(first_ret[1])) if not (ret2 and ret2[0] == 'raised') else False
+            if not same_ret or not (len(ev.log) == len(first_events) and all(jg.jeq(a, b) for a, b in zip(ev.log, first_events))):
+                discs.append(Disc("C12/second-dispatch-of-the-same-document-differs",
+                                  f"first {first_ret!r} events {jg.short(first_events, 300)}; second {ret2!r} events {jg.short(ev.log, 300)} | {where}"))
         n_mw = len(spec['middlewares'])
         classes.append(f"mw/{n_mw}")
         if n_mw and container != 'list':
